@@ -9,7 +9,7 @@ drop (-> retry)} and thread-order deviations (timer vs dispatcher ...).
 import os
 import tempfile
 
-from vf import cfh, simcf
+from vf import cfh, simcf, vsched
 from vf.core import Partial
 from vf.explore import explore
 
@@ -105,6 +105,21 @@ def exec_c03(cfg, devs):
     p = Partial()
     dev = build_device(cfg)
     menu = ('once', 'dup', 'delay') + (('drop',) if cfg['resend'] else ())
+    vsched.clear_traced_functions()
+    if cfg.get('lines'):
+        # line-level scheduling points in the download machinery: the TOC fetcher, the extended-type fetcher thread and
+        # the reply handlers of the log and parameter subsystems, plus the retry machinery of Crazyflie
+        import threading
+        import cflib.crazyflie as cfm
+        import cflib.crazyflie.toc as tm
+        import cflib.crazyflie.param as pm
+        import cflib.crazyflie.log as lm
+        fs = cfh.functions_of(getattr(tm, 'TocFetcher', None), skip=('__init__',))
+        fs += cfh.functions_of(*[v for v in vars(pm).values() if isinstance(v, type) and issubclass(v, threading.Thread)
+                                 and v.__module__ == pm.__name__], skip=('__init__',))
+        fs += [f for f in cfh.functions_of(pm.Param, lm.Log, cfm.Crazyflie, skip=('__init__',))
+               if f.__name__.startswith('_') or f.__name__ in ('refresh_toc', 'send_packet')]
+        vsched.trace_functions(fs)
     ex = cfh.Exec(devs, dev, time_limit=60.0, reply_menu=menu, needs_resending=cfg['resend'], delay=0.25, policy=cfg.get('policy'))
     def label_fn(h, payload):
         port, chan = (h >> 4) & 15, h & 3
@@ -275,11 +290,25 @@ def run(ck):
         ck.note('executions_deep', r1b)
         ck.note('deep_configurations', [c['name'] for c in deep])
     r2 = explore(ck, exec_c03, large, 1, child_filter=_filter_sample_large, max_execs=100000, chunksize=1)
+    # focused line-level search: one reply fault (dup / delay / drop) and one thread switch at a line of the download
+    # machinery within the next 40 points (thorough: two switches, the second within 20 points of the first)
+    fnames = ('small:p10:l1p1:rs',) if ck.quick else ('small:p10:l1p1:rs', 'small:p10:l2p3:rs', 'small:p3:l2p3:rs')
+    focus = [dict(c, name=c['name'] + ':lines', lines=True) for c in small if c['name'] in fnames]
+    r3 = explore(ck, exec_c03, focus, 2 if ck.quick else 3, child_filter=_focus_filter, max_execs=3000000)
+    ck.note('focused_line_level', r3)
     ck.note('small_configurations', len(small))
     ck.note('large_configurations', len(large))
     ck.note('executions_small', r1)
     ck.note('executions_large', r2)
     ck.exhaustive = True
+
+
+def _focus_filter(devs, i, alt, label):
+    if not devs:
+        return label.startswith('reply:')
+    if len(devs) == 1:
+        return label.startswith('L:') and i <= devs[0][0] + 40
+    return label.startswith('L:') and i <= devs[1][0] + 20
 
 
 def _filter_sample_large(devs, i, alt, label):
